@@ -7,6 +7,8 @@ import (
 	"errors"
 	"time"
 
+	"github.com/gotd/log"
+
 	"github.com/gotd/td/bin"
 	"github.com/gotd/td/internal/verifrt"
 )
@@ -48,6 +50,18 @@ func (o *verifOut) Decode(b *bin.Buffer) error {
 	return nil
 }
 
+// verifLog is the engine's logger: the first statement of the result handler ("Handler called") is
+// a call-out that lies between NotifyResult's lookup of the handler and the handler's own
+// bookkeeping — events injected there hit that window.
+type verifLog struct{ h *verifScn }
+
+func (l verifLog) Enabled(ctx context.Context, level log.Level) bool { return true }
+func (l verifLog) Log(ctx context.Context, level log.Level, msg string, attrs ...log.Attr) {
+	if msg == "Handler called" && l.h.notifying >= 0 {
+		l.h.inject("handler" + string(rune('0'+l.h.notifying)))
+	}
+}
+
 type verifIn struct{}
 
 func (verifIn) Encode(b *bin.Buffer) error { return nil }
@@ -70,10 +84,14 @@ type verifScn struct {
 	acked    [2]bool
 	answered [2]bool // a result or error for the id was handed to the engine while its handler was registered
 	firstTag [2]byte
+	tags     [2][]byte // every result handed over for the id while its call was pending
+	gotErr   [2]bool   // an rpc error was handed over for the id while its call was pending
 	firstErr [2]bool
 	results  [2]int
 	drops    [2]int
 	closed   bool
+	notifying int // request whose result/error the harness is delivering (-1: none)
+	parkUsed bool
 	mainRunning bool
 	parked   []chan struct{}
 	closedByScenario bool
@@ -98,12 +116,18 @@ func (h *verifScn) ackRegistered(k int) bool {
 func (h *verifScn) result(k int) {
 	h.nextTag++
 	tag := h.nextTag
+	if h.registered(k) && !h.returned[k] {
+		h.tags[k] = append(h.tags[k], tag)
+	}
 	if h.registered(k) && !h.answered[k] && !h.returned[k] && !(h.canceled[k] && h.dropping(k)) {
 		h.answered[k] = true
 		h.firstTag[k] = tag
 	}
 	h.results[k]++
+	prev := h.notifying
+	h.notifying = k
 	_ = h.e.NotifyResult(h.ids[k], &bin.Buffer{Buf: []byte{tag, 0, 0, 0}})
+	h.notifying = prev
 }
 
 // dropping: the caller was cancelled and Do has replaced the handler by the no-op one (we cannot
@@ -112,11 +136,17 @@ func (h *verifScn) result(k int) {
 func (h *verifScn) dropping(k int) bool { return h.canceled[k] }
 
 func (h *verifScn) rpcError(k int) {
+	if h.registered(k) && !h.returned[k] {
+		h.gotErr[k] = true
+	}
 	if h.registered(k) && !h.answered[k] && !h.returned[k] && !h.canceled[k] {
 		h.answered[k] = true
 		h.firstErr[k] = true
 	}
+	prev := h.notifying
+	h.notifying = k
 	h.e.NotifyError(h.ids[k], errVerifRPC)
+	h.notifying = prev
 }
 
 // settle waits until every other goroutine is blocked. On the harness goroutine this is
@@ -204,7 +234,7 @@ func (h *verifScn) inject(where string) {
 				h.acked[k] = true
 			}
 		}
-		h.e.NotifyAcks([]int64{h.ids[1], h.ids[0]})
+		h.e.NotifyAcks([]int64{h.unknown, h.ids[1], h.ids[0]}) // a stale id first, as in a real msgs_ack batch
 	}
 }
 
@@ -216,7 +246,7 @@ func (h *verifScn) which(id int64) int {
 }
 
 func verifScenario(budget int, explore int) *verifScn {
-	h := &verifScn{budget: budget, mainRunning: true}
+	h := &verifScn{budget: budget, mainRunning: true, notifying: -1}
 	h.ids[0] = verifrt.NondetInt64("id0")
 	h.ids[1] = verifrt.NondetInt64("id1")
 	h.unknown = verifrt.NondetInt64("idx")
@@ -227,6 +257,12 @@ func verifScenario(budget int, explore int) *verifScn {
 		if h.acked[k] || h.answered[k] {
 			h.lateSend[k]++
 		}
+		// the transport write may block for a while: the sender is parked until everything else
+		// has come to rest (at most once per scenario, free of charge)
+		if !h.parkUsed && !h.mainRunning && verifrt.Fork("park@send"+string(rune('0'+k)), 2) == 1 {
+			h.parkUsed = true
+			h.settle()
+		}
 		h.inject("send" + string(rune('0'+k)))
 		if err := ctx.Err(); err != nil {
 			// a real transport write fails once its context is done
@@ -234,7 +270,7 @@ func verifScenario(budget int, explore int) *verifScn {
 		}
 		h.sendOK[k]++
 		return nil
-	}, Options{RetryInterval: 100 * time.Hour, DropHandler: func(req Request) error {
+	}, Options{Logger: verifLog{h}, RetryInterval: 100 * time.Hour, DropHandler: func(req Request) error {
 		k := h.which(req.MsgID)
 		h.drops[k]++
 		h.inject("drop" + string(rune('0'+k)))
@@ -283,7 +319,15 @@ func verifC24Claims(h *verifScn) {
 		// the output is written at most once, only with a result addressed to this call ...
 		verifrt.Assert(len(o.decodes) <= 1, "C24.once.singledecode")
 		if len(o.decodes) == 1 {
-			verifrt.Assert(h.answered[k] && !h.firstErr[k] && o.decodes[0] == h.firstTag[k], "C24.once.ownresult")
+			// (answers that race each other — delivered while an earlier one is still being handled —
+			// may be taken in either order)
+			own := false
+			for _, tg := range h.tags[k] {
+				if tg == o.decodes[0] {
+					own = true
+				}
+			}
+			verifrt.Assert(own, "C24.once.ownresult")
 		}
 		// ... and never during or after the return of the call
 		verifrt.Class("C24-decode-after-cancel", h.canceled[k])
@@ -294,14 +338,17 @@ func verifC24Claims(h *verifScn) {
 		case err == nil:
 			verifrt.Assert(len(o.decodes) == 1, "C24.once.nilmeansdecoded")
 		case errors.Is(err, errVerifRPC):
-			verifrt.Assert(h.firstErr[k], "C24.once.ownerror")
+			verifrt.Assert(h.gotErr[k], "C24.once.ownerror")
 		default:
 			verifrt.Assert(h.canceled[k] || h.closed, "C24.once.othererror")
 		}
 		if h.answered[k] && !h.canceled[k] && !h.closedBeforeAnswer(k) {
-			if h.firstErr[k] {
+			switch {
+			case len(h.tags[k]) > 0 && h.gotErr[k]:
+				verifrt.Assert(err == nil || errors.Is(err, errVerifRPC), "C24.once.answerdelivered")
+			case h.gotErr[k]:
 				verifrt.Assert(errors.Is(err, errVerifRPC), "C24.once.errordelivered")
-			} else {
+			default:
 				verifrt.Assert(err == nil, "C24.once.resultdelivered")
 			}
 		}
